@@ -720,7 +720,7 @@ def v_sort_within_records(cx):
     rng = cx.rng
     if rng.random() < 0.5:
         return v_sort_within_records_sel(cx)
-    mode = rng.choice(["plain", "plain", "f", "natural"])
+    mode = rng.choice(["plain", "plain", "plain", "f", "natural"])
     cx.opt = mode
     if mode == "natural":
         pool = ["n1", "n2", "n10", "n3", "n20", "n100", "n9"]
